@@ -284,6 +284,15 @@ func sharedPointers(v any) bool {
 	return shared
 }
 
+type c07leaf struct {
+	Name string `yaml:"name"`
+}
+
+type c07tree struct {
+	Name     string                         `yaml:"name"`
+	Children *ordered.Map[string, *c07tree] `yaml:"children"`
+}
+
 func c07one(text string, g *c07gen) {
 	c := sx.A(text)
 	noteCase("C07", text)
@@ -350,12 +359,39 @@ func c07one(text string, g *c07gen) {
 			return out
 		}
 		rootA := n.Content[0]
+		anyValueFails := false
+		defer func() {
+			// the same document decoded into an ordered map with TYPED values (the other public entry point of the
+			// decoder): a value that cannot be expanded is an error there too, not something to skip or to recurse on
+			if !anyValueFails {
+				return
+			}
+			for ti, target := range []any{ordered.NewMap[string, c07leaf](0), ordered.NewMap[string, map[string]any](0), ordered.NewMap[string, *c07tree](0)} {
+				var terr error
+				func() {
+					defer func() {
+						if x := recover(); x != nil {
+							terr = fmt.Errorf("panic: %v", x)
+						}
+					}()
+					terr = yaml.Unmarshal([]byte(text), target)
+				}()
+				if terr == nil {
+					oracleFail("C07", "typed-map-accepts-cycle", c, fmt.Sprintf("a top-level value of this document cannot be decoded (alias cycle), yet decoding the document into an ordered map with typed values (target %d) succeeds", ti))
+					return
+				}
+			}
+			stat("C07", "typed-map-rejects")
+		}()
 		for vi := 1; vi < len(rootA.Content); vi += 2 {
 			var fresh yaml.Node
 			if yaml.Unmarshal([]byte(text), &fresh) != nil || len(fresh.Content) != 1 || len(fresh.Content[0].Content) != len(rootA.Content) {
 				break
 			}
 			used, clean := dec(rootA.Content[vi]), dec(fresh.Content[0].Content[vi])
+			if clean == "error" {
+				anyValueFails = true
+			}
 			if used != clean {
 				oracleFail("C07", "decode-depends-on-history", c, fmt.Sprintf("the value of top-level key %q decodes to %s in a node tree that was decoded before (whole document: err=%v) and to %s in a freshly parsed tree", rootA.Content[vi-1].Value, used, r.err, clean))
 				return
